@@ -86,6 +86,14 @@ def generated_configs(n, seed):
             cfg["F2"] = {"extends": "F", "from": 50, "to": 50 + rng.randint(0, 3), "cashAmount": 7000}
             ags = cfg["simulation"]["agents"]
             ags.insert(ags.index("F") + rng.choice([0, 1]), "F2")
+        if i % 6 in (3, 4):
+            # a market GROUP declared with a count (no `extends`): the runner expands it from a copy of the entry
+            cfg["XG"] = {"class": "Market", "tickSize": 0.01, "marketPrice": 200.0, "numMarkets": 2, "fundamentalVolatility": 0.0,
+                         "outstandingShares": 1000}
+            if i % 6 == 4:
+                cfg["XG"]["prefix"] = "xg"
+            cfg["simulation"]["markets"].append("XG")
+            cfg["F"]["markets"] = list(cfg["F"]["markets"]) + ["XG"]
         evs = []
         if rng.random() < 0.7:
             cfg["UE"] = {"class": "DetEvent"}          # a user-written event hooked on everything (registered by the worker)
